@@ -8,6 +8,21 @@ def run(ctx):
     ctx.tlc_mc(fam, "LRU", "LRU_MC.cfg", workers=4, coverage=ctx.thorough)
     if ctx.thorough:
         ctx.tlc_mc(fam, "LRU", "LRU_MC_big.cfg", workers=16, timeout=3000)
+    # 1b. unbounded design-level safety (extras/ind.md): LRU_Ind restates the design on ranks instead of a
+    # sequence; TLC checks the refinement LRU -> LRU_Ind method by method, Apalache proves IndInv inductive for
+    # any capacity, charges and values (3 keys; thorough tier only: the step takes minutes)
+    r0 = ctx.mc[0]
+    ctx.tlc_mc(fam, "LRU_IndRef", "LRU_IndRef.cfg", workers=4, label="refinement LRU -> LRU_Ind")
+    if ctx.thorough:
+        r1 = ctx.tlc_mc(fam, "LRU_Ind", "LRU_Ind_MC.cfg", workers=4, label="LRU_Ind on its own, same constants")
+        if r1["distinct"] != r0["distinct"]:
+            from vlib import MachineryError
+            raise MachineryError("LRU_Ind reaches %d states, LRU %d: the restated copy has drifted"
+                                 % (r1["distinct"], r0["distinct"]))
+        ctx.tlc_mc(fam, "LRU_IndRef", "LRU_IndRef_big.cfg", workers=16, timeout=3000,
+                   label="refinement LRU -> LRU_Ind, 4 keys")
+        ctx.apalache_ind(fam, "LRU_Ind", cinit="CInit", timeout=2400,
+                         label="LRU_Ind: IndInv inductive; capacity, charges, values symbolic, 3 keys")
     # 2. plans out of the spec
     pdir, plans = ctx.tlc_plans(fam, "LRU_Gen", "LRU_Gen.cfg", num=ctx.q(250, 3000), depth=14)
     # 3. execute against the real code
